@@ -30,7 +30,8 @@ func (r *Parser) ParseError(format string, a ...interface{}) error {
 
 func (r *Parser) NextBytes(n int) ([]byte, error) {
 	b := r.buf.Buffer(n)
-	_, err := r.Read(b)
+	// a single Read may deliver fewer than n bytes, or the last bytes together with io.EOF
+	_, err := io.ReadFull(r, b)
 	return b, err
 }
 
